@@ -1,6 +1,7 @@
 //! vh — verification harness for calloop (property-based testing and fuzzing).
 pub mod driver;
 pub mod evidence;
+pub mod fuzz;
 pub mod hist;
 pub mod kernel;
 pub mod panics;
